@@ -86,6 +86,9 @@ func near(r *rand.Rand, k string) string {
 	}
 }
 
+// sampleOps is set by every suite run to (the tail of) the operation history it just executed, for evidence samples.
+var sampleOps []string
+
 func q(s string) string { return fmt.Sprintf("%q", s) }
 
 type suite struct {
@@ -116,6 +119,7 @@ func TestVerifC39(t *testing.T) {
 		{"lrucache", 2400, 60000, runLru, 0},
 		{"cache", 2400, 60000, runCache, 0},
 	}
+	sampled := map[string]int{}
 	for si, s := range suites {
 		n := vk.N(s.quick, s.thorough)
 		for i := 0; i < n; i++ {
@@ -131,6 +135,15 @@ func TestVerifC39(t *testing.T) {
 				h = vk.Hash64(s.name, i, "panic")
 			}
 			rep.Eval(h, nt)
+			if nt && p == nil && si%vk.NShards() == vk.Shard()%len(suites) && sampled[s.name] < 1 && rep.WantSample() && len(sampleOps) > 0 {
+				sampled[s.name]++
+				ops := sampleOps
+				if len(ops) > 12 {
+					ops = ops[len(ops)-12:]
+				}
+				rep.Sample(map[string]any{"suite": s.name, "history": i, "big": big, "last_operations": ops, "verdict": "agrees with the model"})
+			}
+			sampleOps = nil
 			rep.Count(s.name+"_histories", 1)
 		}
 	}
